@@ -185,6 +185,7 @@ def run(ctx):
         ply_points_cases(ctx, tmp)
         image_range_cases(ctx, tmp)
         tensor_layout_cases(ctx, tmp)
+        loaded_values_stay(ctx, tmp)
         # ---------------- tensors
         for _ in range(ctx.n(3, 20)):
             t = torch.randn(rng.randint(1, 5), rng.randint(1, 5), dtype=rng.choice([torch.float32, torch.float64, torch.complex64]))
@@ -444,6 +445,86 @@ def tensor_layout_cases(ctx, tmp):
                 ctx.violation('%s tensor (shape %s, stride %s, %s) does not read back identically: %s' % (
                     name, tuple(t.shape), t.stride(), t.dtype, 'shape %s dtype %s' % (tuple(back.shape), back.dtype) if isinstance(back, torch.Tensor) else type(back)),
                     rec, {'fn': 'save_torch_tensor', 'what': 'roundtrip', 'layout': name})
+
+
+def loaded_values_stay(ctx, tmp):
+    """what a load call returned is the caller's data: it stays what it was when the file is written again with other content, or removed
+    (small and large payloads: 1 KiB .. 4 MiB, so that size-dependent reading strategies are all exercised)"""
+    import odak.learn.tools as LT
+    import odak.tools as NT
+    rng = ctx.rng
+    for side in (16, 300, 600, 1024):
+        for dtype in (torch.float32, torch.complex64):
+            fn = os.path.join(tmp, 'stay_%d.pt' % side)
+            g = torch.Generator().manual_seed(rng.randrange(10 ** 6))
+            a = torch.rand(side, side, generator=g).to(dtype)
+            b = (torch.rand(side, side, generator=g) + 2.0).to(dtype)
+            ctx.case(('loaded_stays', 'tensor', side, str(dtype)), True)
+            ctx.count('loaded_stays/tensor/%s' % ('<=1MiB' if a.numel() * a.element_size() <= 2 ** 20 else '>1MiB'))
+            rec = {'fn': 'torch_load', 'shape': [side, side], 'dtype': str(dtype), 'bytes': a.numel() * a.element_size()}
+            try:
+                LT.save_torch_tensor(fn, a)
+                got = LT.torch_load(fn)
+                first_ok = torch.equal(got, a)
+                LT.save_torch_tensor(fn, b)
+                second = LT.torch_load(fn)
+                os.remove(fn)
+            except Exception as e:
+                ctx.violation('save / load / save again / load again of a %dx%d %s tensor raised %r' % (side, side, dtype, e), rec,
+                              {'fn': 'torch_load', 'what': 'raises'})
+                continue
+            if not first_ok or not torch.equal(second, b):
+                ctx.violation('a %dx%d %s tensor does not read back identically (first load %s, load after rewriting %s)'
+                              % (side, side, dtype, first_ok, torch.equal(second, b)), rec, {'fn': 'torch_load', 'what': 'roundtrip'})
+            elif not torch.equal(got, a):
+                ctx.violation('the %dx%d %s tensor returned by torch_load changed when the file was written again with other content '
+                              '(%d bytes; the loaded tensor is backed by the file instead of holding the data)' % (side, side, dtype, rec['bytes']),
+                              rec, {'fn': 'torch_load', 'what': 'loaded_value_changed_with_file'})
+            try:
+                got.mul_(2.0)          # and it is writable like any tensor the caller owns
+            except Exception as e:
+                ctx.violation('the tensor returned by torch_load (%dx%d %s) cannot be modified in place: %r' % (side, side, dtype, e), rec,
+                              {'fn': 'torch_load', 'what': 'loaded_value_readonly'})
+    # images (both APIs), dictionaries, text files
+    for side in (8, 640):
+        fn = os.path.join(tmp, 'stay_%d.png' % side)
+        ia = np.random.RandomState(side).randint(0, 255, (side, side, 3)).astype(np.float64)
+        ib = 255.0 - ia
+        ctx.case(('loaded_stays', 'image', side), True)
+        ctx.count('loaded_stays/image')
+        for api in ('numpy', 'torch'):
+            try:
+                if api == 'numpy':
+                    NT.save_image(fn, ia.copy()); got = NT.load_image(fn); snap = np.array(got, copy=True)
+                    NT.save_image(fn, ib.copy()); again = NT.load_image(fn)
+                    bad = not np.array_equal(got, snap) or not np.array_equal(np.asarray(again, dtype=np.float64), ib) or not np.array_equal(snap, ia)
+                else:
+                    LT.save_image(fn, torch.tensor(ia)); got = LT.load_image(fn); snap = got.clone()
+                    LT.save_image(fn, torch.tensor(ib)); again = LT.load_image(fn)
+                    bad = not torch.equal(got, snap) or not np.array_equal(again.numpy().astype(np.float64), ib) or not np.array_equal(snap.numpy().astype(np.float64), ia)
+                os.remove(fn)
+            except Exception as e:
+                ctx.note('image save/load/save/load session raised %r (%s, %d)' % (e, api, side))
+                continue
+            if bad:
+                ctx.violation('%s image session (save A, load, save B to the same name, load): a loaded image changed or was not what was saved'
+                              % api, {'fn': 'load_image', 'api': api, 'side': side}, {'fn': 'load_image', 'what': 'loaded_value_changed_with_file', 'api': api})
+    fn = os.path.join(tmp, 'stay.json')
+    da, db = {'a': [1.5, 2.5], 'b': {'c': 'x'}}, {'a': [9.0], 'b': {'c': 'y'}, 'd': 1}
+    NT.save_dictionary(da, fn); got = NT.load_dictionary(fn)
+    NT.save_dictionary(db, fn); again = NT.load_dictionary(fn)
+    ctx.case(('loaded_stays', 'dictionary'), True)
+    if got != da or again != db:
+        ctx.violation('dictionary session (save A, load, save B to the same name, load): got %r and %r' % (got, again), {'fn': 'load_dictionary'},
+                      {'fn': 'load_dictionary', 'what': 'loaded_value_changed_with_file'})
+    fn = os.path.join(tmp, 'stay.txt')
+    la, lb = ['alpha', 'beta'], ['gamma']
+    NT.write_to_text_file(la, fn); got = NT.read_text_file(fn)
+    NT.write_to_text_file(lb, fn); again = NT.read_text_file(fn)
+    ctx.case(('loaded_stays', 'text'), True)
+    if got != la or again != lb:
+        ctx.violation('text file session (write A, read, write B to the same name, read): got %r and %r' % (got, again), {'fn': 'read_text_file'},
+                      {'fn': 'read_text_file', 'what': 'loaded_value_changed_with_file'})
 
 
 def replay(ctx, rep):
